@@ -37,6 +37,7 @@ type Plan struct {
 	Fat           bool   `json:"fat,omitempty"`           // 18-30 live types, creations carry most of them (entities with > 16 components)
 	HugeComp      bool   `json:"hugeComp,omitempty"`      // one component type of 4 KiB - 70 KiB
 	ManySubs      bool   `json:"manySubs,omitempty"`      // Dispatch with more than 64 members
+	ListenerSpawn bool   `json:"listenerSpawn,omitempty"` // the all-events listener creates entities inside notifications (legal: the world is unlocked)
 	ListenerRes   bool   `json:"listenerRes,omitempty"`   // the listener object is also stored as a resource
 	Lens          string `json:"lens,omitempty"`          // "C11": after a mismatch that is not an event violation the run goes on, judged only by "the world rebuilt from the delivered events equals the world"
 	NoTargetDeath bool   `json:"noTargetDeath,omitempty"` // differential for C06: removals of entities that currently are relation targets are skipped
@@ -332,6 +333,9 @@ func GenPlan(profile string, seed uint64, thorough bool) *Plan {
 		if p.ResTypes < 6 {
 			p.ResTypes = 6
 		}
+	}
+	if p.Listener == "all" && profile != "C12" && !p.FreshTwin && !p.LoadTwin {
+		p.ListenerSpawn = r.Intn(3) == 0
 	}
 	if p.HugeComp {
 		if p.EntityCap > 50 {
